@@ -1,6 +1,8 @@
 package config
 
-// Verification harness for C48 (overlay-injected; never committed to /repo).
+// Verification harnesses for C48 in plumbing/format/config (overlay-injected;
+// never committed to /repo). The git reference model is in
+// zz_verif_c48_gitmodel.go.
 
 import (
 	"bytes"
@@ -8,20 +10,286 @@ import (
 	"github.com/go-git/go-git/v6/internal/verifrt"
 )
 
-func VerifHarness_C48_probe() {
-	n := verifrt.Range(0, verifrt.Param("N"))
-	v := verifrt.NondetString(n)
-	for i := 0; i < n; i++ {
-		verifrt.Assume(v[i] != 0)
+// ---------- term-building helpers (no forking) ----------
+
+func verifHasByte(s string, c byte) bool {
+	r := false
+	for i := 0; i < len(s); i++ {
+		r = verifrt.Or(r, s[i] == c)
 	}
+	return r
+}
+
+// verifUTF8Invalid: s is not valid UTF-8 in the sense of utf8.ValidString
+// (the condition under which gcfg's scanner reports "illegal UTF-8
+// encoding"), as one term: a position-wise automaton with the number of
+// pending continuation bytes and the admissible range of the next byte.
+func verifUTF8Invalid(s string) bool {
+	bad := false
+	rem := 0
+	lo, hi := byte(0x80), byte(0xbf)
+	for i := 0; i < len(s); i++ {
+		b := s[i]
+		atLead := rem == 0
+		// lead byte classification
+		l1 := verifrt.And(b >= 0xc2, b <= 0xdf)
+		l2 := verifrt.And(b >= 0xe0, b <= 0xef)
+		l3 := verifrt.And(b >= 0xf0, b <= 0xf4)
+		leadBad := verifrt.And(b >= 0x80, !verifrt.Or(l1, verifrt.Or(l2, l3)))
+		contBad := verifrt.Or(b < lo, b > hi)
+		bad = verifrt.Or(bad, verifrt.Ite(atLead, verifBool(leadBad), verifBool(contBad)) != 0)
+		need := verifrt.Ite(l1, 1, verifrt.Ite(l2, 2, verifrt.Ite(l3, 3, 0)))
+		nlo := verifrt.IteByte(b == 0xe0, 0xa0, verifrt.IteByte(b == 0xf0, 0x90, 0x80))
+		nhi := verifrt.IteByte(b == 0xed, 0x9f, verifrt.IteByte(b == 0xf4, 0x8f, 0xbf))
+		lo = verifrt.IteByte(atLead, nlo, 0x80)
+		hi = verifrt.IteByte(atLead, nhi, 0xbf)
+		rem = verifrt.Ite(atLead, need, rem-1)
+	}
+	return verifrt.Or(bad, rem != 0)
+}
+
+// VerifUTF8Invalid exports the model to the config-package harnesses.
+func VerifUTF8Invalid(s string) bool { return verifUTF8Invalid(s) }
+
+func verifBool(b bool) int { return verifrt.Ite(b, 1, 0) }
+
+// verifAlphabet is the representative byte set of the *-alpha harnesses:
+// every byte the encoder, git's reader or gcfg's scanner treats specially,
+// plus ordinary letters, one invalid-UTF-8 byte and the two bytes of U+00E9.
+var verifAlphabet = []byte{'"', '\\', '\n', '\r', ' ', 'a', '#', 0x80, '\t', '\b', ';', 'n', '=', ']', 0xc3, 0xa9}
+
+// verifString draws a string of length <= N: all byte values except NUL when
+// ALPHA is 0, otherwise bytes of verifAlphabet[:ALPHA].
+func verifString(n int) string {
+	a := verifrt.Param("ALPHA")
+	if a == 0 {
+		v := verifrt.NondetString(n)
+		for i := 0; i < n; i++ {
+			verifrt.Assume(v[i] != 0)
+		}
+		return v
+	}
+	b := make([]byte, n)
+	for i := 0; i < n; i++ {
+		k := int(verifrt.NondetByte())
+		verifrt.Assume(k < a)
+		b[i] = verifAlphabet[k]
+	}
+	return string(b)
+}
+
+// verifFlat flattens a decoded Config into (section, subsection, key, value)
+// tuples in go-git's own order.
+type verifTuple struct{ s, ss, k, v string }
+
+func verifFlat(c *Config) []verifTuple {
+	var r []verifTuple
+	for _, s := range c.Sections {
+		for _, o := range s.Options {
+			r = append(r, verifTuple{s.Name, "", o.Key, o.Value})
+		}
+		for _, ss := range s.Subsections {
+			for _, o := range ss.Options {
+				r = append(r, verifTuple{s.Name, ss.Name, o.Key, o.Value})
+			}
+		}
+	}
+	return r
+}
+
+// ---------- write direction: one option value ----------
+
+// verifC48EncValue: a Config with the single option s.k = v (or
+// s.<sub>.k = v) is encoded; git's reader and go-git's own reader must both
+// return exactly that option.
+func verifC48EncValue(sub, v string) {
+	n := len(v)
 	cfg := New()
-	cfg.AddOption("s", "", "k", v)
+	cfg.AddOption("s", sub, "k", v)
 	var buf bytes.Buffer
 	err := NewEncoder(&buf).Encode(cfg)
 	verifrt.Assert(err == nil, "c48-enc-noerr")
+	out := buf.Bytes()
+
+	hasCR := verifHasByte(v, '\r')
+	special := false
+	for i := 0; i < n; i++ {
+		c := v[i]
+		special = verifrt.Or(special, verifrt.Or(verifrt.Or(c == '#', c == ';'), verifrt.Or(verifrt.Or(c == '"', c == '\t'), verifrt.Or(c == '\n', c == '\\'))))
+	}
+	if n > 0 {
+		special = verifrt.Or(special, verifrt.Or(v[0] == ' ', v[n-1] == ' '))
+	}
+	badUTF := verifUTF8Invalid(v)
+
+	// git reads it back
+	verifrt.Known("C48-enc-cr-unquoted", verifrt.And(hasCR, !special))
+	es, ok := VerifGitParse(out)
+	verifrt.Reach("c48-enc-git-read")
+	verifrt.Assert(ok, "c48-enc-git-accepts")
+	if ok {
+		good := len(es) == 1
+		if good {
+			e := es[0]
+			good = e.Section == "s" && e.Key == "k" && e.HasVal && !e.NoSection &&
+				e.HasSub == (sub != "") && e.Sub == sub && verifrt.StrEq(e.Val, v)
+		}
+		verifrt.Assert(good, "c48-enc-git-value")
+	}
+
+	// go-git reads it back
+	verifrt.Known("C48-gcfg-value-cr-stripped", hasCR)
+	verifrt.Known("C48-gcfg-non-utf8", badUTF)
 	back := New()
-	err = NewDecoder(bytes.NewReader(buf.Bytes())).Decode(back)
-	verifrt.Reach("c48-probe")
-	verifrt.Assert(err == nil, "c48-dec-noerr")
-	verifrt.Assert(back.Section("s").Options.Get("k") == v, "c48-rt")
+	err = NewDecoder(bytes.NewReader(out)).Decode(back)
+	verifrt.Reach("c48-enc-gogit-read")
+	verifrt.Assert(err == nil, "c48-enc-gogit-accepts")
+	if err == nil {
+		fl := verifFlat(back)
+		good := len(fl) == 1
+		if good {
+			good = fl[0].s == "s" && fl[0].ss == sub && fl[0].k == "k" && verifrt.StrEq(fl[0].v, v)
+		}
+		verifrt.Assert(good, "c48-enc-gogit-value")
+	}
+}
+
+// VerifHarness_C48_enc_value: section s, no subsection, value of <= N bytes.
+func VerifHarness_C48_enc_value() {
+	n := verifrt.Range(0, verifrt.Param("N"))
+	verifC48EncValue("", verifString(n))
+}
+
+// VerifHarness_C48_enc_value_sub: the same below a fixed subsection (the
+// [s "x"] header form).
+func VerifHarness_C48_enc_value_sub() {
+	n := verifrt.Range(0, verifrt.Param("N"))
+	verifC48EncValue("x", verifString(n))
+}
+
+// ---------- write direction: subsection name ----------
+
+// VerifHarness_C48_enc_subsection: option s.<sub>.k = v with a subsection
+// name of 1..N bytes and a fixed value.
+func VerifHarness_C48_enc_subsection() {
+	n := verifrt.Range(1, verifrt.Param("N"))
+	sub := verifString(n)
+	cfg := New()
+	cfg.AddOption("s", sub, "k", "v w")
+	var buf bytes.Buffer
+	err := NewEncoder(&buf).Encode(cfg)
+	verifrt.Assert(err == nil, "c48-sub-noerr")
+	out := buf.Bytes()
+
+	hasNL := verifHasByte(sub, '\n')
+	badUTF := verifUTF8Invalid(sub)
+
+	verifrt.Known("C48-enc-subsection-newline", hasNL)
+	es, ok := VerifGitParse(out)
+	verifrt.Reach("c48-sub-git-read")
+	verifrt.Assert(ok, "c48-sub-git-accepts")
+	if ok {
+		good := len(es) == 1
+		if good {
+			e := es[0]
+			good = e.Section == "s" && e.Key == "k" && e.HasVal && !e.NoSection &&
+				e.HasSub && verifrt.StrEq(e.Sub, sub) && e.Val == "v w"
+		}
+		verifrt.Assert(good, "c48-sub-git-value")
+	}
+
+	verifrt.Known("C48-gcfg-non-utf8", badUTF)
+	back := New()
+	err = NewDecoder(bytes.NewReader(out)).Decode(back)
+	verifrt.Reach("c48-sub-gogit-read")
+	verifrt.Assert(err == nil, "c48-sub-gogit-accepts")
+	if err == nil {
+		fl := verifFlat(back)
+		good := len(fl) == 1
+		if good {
+			good = fl[0].s == "s" && verifrt.StrEq(fl[0].ss, sub) && fl[0].k == "k" && fl[0].v == "v w"
+		}
+		verifrt.Assert(good, "c48-sub-gogit-value")
+	}
+}
+
+// ---------- read direction: the value region of one line (and what follows) ----------
+
+var verifReadAlphabet = []byte{'"', '\\', '\n', ' ', '#', ';', 'a', 'n', '=', 't', 0x80, 0xc3, 0xa9, ']'}
+
+// VerifHarness_C48_dec_value: the file "[s]\n\tk =" + T + "\n" (PRE=1:
+// "[s]\n\tk =\"\"" + T + "\n", the value starts with an empty quoted string) where T is
+// 0..N bytes of verifReadAlphabet[:ALPHA] (quotes, escapes, continuation
+// lines, comments, further keys on following lines). Whenever git's reader
+// accepts the file, go-git's Decoder must accept it and report the same
+// variables in the same order with the same values (a valueless key compares
+// equal to the empty value here; see the valueless harness).
+func VerifHarness_C48_dec_value() {
+	n := verifrt.Range(0, verifrt.Param("N"))
+	a := verifrt.Param("ALPHA")
+	t := make([]byte, n)
+	for i := 0; i < n; i++ {
+		k := int(verifrt.NondetByte())
+		verifrt.Assume(k < a)
+		t[i] = verifReadAlphabet[k]
+	}
+	// After a line break that is not a continuation, a backslash or a
+	// non-ASCII byte before any '=', '#' or ';' of that line makes the file a
+	// "bad config line" for git (outside the property); gcfg formats its
+	// error for such a character with %#U, which the engine's fmt model
+	// lacks, so these files are excluded up front.
+	for i := 0; i < n; i++ {
+		nl := t[i] == '\n'
+		if i > 0 {
+			nl = verifrt.And(nl, t[i-1] != '\\')
+		}
+		open := false
+		for j := i + 1; j < n; j++ {
+			verifrt.Assume(!verifrt.And(verifrt.And(nl, !open), verifrt.Or(t[j] == '\\', t[j] >= 0x80)))
+			open = verifrt.Or(open, verifrt.Or(t[j] == '=', verifrt.Or(t[j] == '#', t[j] == ';')))
+		}
+	}
+	pre := "[s]\n\tk ="
+	if verifrt.Param("PRE") == 1 {
+		pre = "[s]\n\tk =\"\""
+	}
+	text := append(append([]byte(pre), t...), '\n')
+	badUTF := verifUTF8Invalid(string(t))
+
+	back := New()
+	err := NewDecoder(bytes.NewReader(text)).Decode(back)
+
+	es, ok := VerifGitParse(text)
+	if !ok {
+		return // git rejects the file: outside the property
+	}
+	verifrt.Known("C48-gcfg-non-utf8", badUTF)
+	cont, leadDrop := 0, 0
+	for _, e := range es {
+		cont += e.Cont
+		leadDrop += e.LeadDrop
+	}
+	verifrt.Known("C48-gcfg-continuation-newline", cont > 0)
+	verifrt.Known("C48-gcfg-blank-after-empty-quote", leadDrop > 0)
+	verifrt.Reach("c48-dec-compared")
+	verifrt.Assert(err == nil, "c48-dec-gogit-accepts")
+	if err != nil {
+		return
+	}
+	fl := verifFlat(back)
+	good := len(fl) == len(es)
+	if good {
+		for i := range es {
+			e := es[i]
+			good = good && fl[i].s == e.Section && fl[i].ss == "" && !e.HasSub && !e.NoSection
+			if !good {
+				break
+			}
+			good = verifrt.And(verifrt.StrEq(fl[i].k, e.Key), verifrt.StrEq(fl[i].v, e.Val))
+			if !verifrt.MergeBool(func() bool { return good }) {
+				break
+			}
+		}
+	}
+	verifrt.Assert(good, "c48-dec-value")
 }
